@@ -627,15 +627,47 @@ def r03h(ctx, rep, rule="R03h"):
     sw = need(rep, rule, facts, SWEEP)
     if sw is None:
         return
-    ranges = [(bb, st) for bb, j, st in sw.stmts() if st["rv"]["k"] == "agg" and (st["rv"].get("adt") or "").startswith("std::ops::Range")
-              and len(st["rv"]["ops"]) == 2]
-    if not ranges:
-        rep.anchor_lost(rule, "index range in Heap::sweep")
+    # the cursor of the sweep: the index handed to gc::Map::get (the state test of each cell)
+    gets = [(bb, t) for bb, t in sw.calls() if callee(t) == "marwood::vm::gc::Map::get" and len(t["args"]) > 1]
+    if not gets:
+        rep.anchor_lost(rule, "gc::Map::get call in Heap::sweep")
         return
-    for i, (bb, st) in enumerate(ranges):
-        lo, hi = st["rv"]["ops"]
+    bounds = []      # (loc, lo operand or None, hi operand)
+    for bb, t in gets:
+        o = sw.origin(t["args"][1])
+        if o[0] == "call" and (callee(o[1]) or "").endswith("Iterator>::next") or (o[0] == "call" and "range" in (callee(o[1]) or "") and (callee(o[1]) or "").endswith("::next")):
+            # for it in lo..hi : follow &mut iter -> iter -> into_iter(Range { lo, hi })
+            it = sw.origin(o[1]["args"][0])
+            if it[0] == "call" and (callee(it[1]) or "").endswith("::into_iter"):
+                it = sw.origin(it[1]["args"][0])
+            if it[0] == "rv" and it[1]["rv"]["k"] == "agg" and (it[1]["rv"].get("adt") or "").startswith("std::ops::Range") \
+                    and len(it[1]["rv"]["ops"]) == 2:
+                bounds.append((it[1]["loc"], it[1]["rv"]["ops"][0], it[1]["rv"]["ops"][1]))
+                continue
+            rep.fail(rule, "%s|sweep|cursor" % rule, "the iterator feeding the state test of Heap::sweep is not a plain index range", [t["loc"]])
+            return
+        if o[0] == "local":
+            # a hand-written counter: every loop-controlling comparison `cursor < bound`
+            L = o[1]
+            found = False
+            for b2, j2, st in sw.stmts():
+                rv = st["rv"]
+                if rv["k"] == "bin" and rv["op"] in ("Lt", "Le", "Ne"):
+                    a = sw.origin(rv["a"])
+                    if a[0] == "local" and a[1] == L:
+                        inits = [d for d in sw.defs().get(L, []) if d[2] == "assign" and d[3]["rv"]["k"] == "use" and op_const(d[3]["rv"]["a"]) is not None]
+                        lo = inits[0][3]["rv"]["a"] if inits else None
+                        bounds.append((st["loc"], lo, rv["b"]))
+                        found = True
+            if found:
+                continue
+        rep.fail(rule, "%s|sweep|cursor" % rule, "the index Heap::sweep tests cell states with is neither a range variable nor a "
+                 "counter compared against a bound", [t["loc"]])
+        return
+    for i, (loc, lo, hi) in enumerate(bounds):
+        st = {"loc": loc}
         key = "%s|sweep|range#%d" % (rule, i + 1)
-        c = op_const(lo)
+        c = op_const(lo) if lo is not None else None
         if c is None or c.get("int") not in (0, "0"):
             rep.fail(rule, key + "|start", "the range swept by Heap::sweep does not start at cell 0", [st["loc"]])
             continue
